@@ -67,7 +67,7 @@ func (t *mapTable) FindPort(d messaging.RemotePort) messaging.RemotePort {
 	}
 	return t.def
 }
-func (t *mapTable) DefineRoute(d, o messaging.RemotePort)   { t.m[d] = o }
+func (t *mapTable) DefineRoute(d, o messaging.RemotePort)     { t.m[d] = o }
 func (t *mapTable) DefineDefaultRoute(o messaging.RemotePort) { t.def = o }
 
 // ---------------------------------------------------------------- generic plan
